@@ -1,11 +1,10 @@
 """C07 - every timeframe is the exact aggregation of the one-minute candles (DESIGN 5/C07)."""
 from simlab.checklib import SessionCheck
 from simlab.mon_candles import CandleMonitor
+from .common import COMMON_REAL, COMMON_STUB
 
-COMMON_REAL = ['research.backtest', 'config', 'router', 'store (all states)', 'step + fast simulators',
-               'services.candle', 'Order', 'Position', 'Spot/FuturesExchange', 'Sandbox', 'API', 'Broker',
-               'Strategy', 'ClosedTrades', 'metrics', 'report', 'DynamicNumpyArray', 'helpers', 'logger (memory)']
-COMMON_STUB = ['uuid ids (counter)', 'wall clock / sleep (virtual)', 'no DB / Redis / Timeloop threads']
+
+
 
 
 def profile(st):
